@@ -90,7 +90,19 @@ def alphabet(M):
     add("MOR(o=M('a',so=1),p='b')", lambda: M.MOR(o=M.M('a', so=1), p='b'), '(?:(?P<o>a)|(?P<p>b))', ('node', 'o'))
     add("MQSTAR(MOR(r=M(...,sr=1)))", lambda: M.MQSTAR(M.MOR(r=M.M(..., sr=1))), '(?:(?P<r>.))*', ('node', 'r'))
     add("MQPLUS(['a',MOR(s=M(...,ss=1))])", lambda: M.MQPLUS(['a', M.MOR(s=M.M(..., ss=1))]), '(?:a(?P<s>.))+', ('node', 's'))
+    # back-references: a one-element group and references to it (and to the single-node captures above), alone and quantified.
+    # A reference before / without its group is not a regular expression (re.error): such sequences are skipped
+    add("M(g=...)", lambda: M.M(g=...), '(?P<g>.)', ('node', 'g'))
+    add("MTAG('g')", lambda: M.MTAG('g'), '(?P=g)')
+    add("MQSTAR(MTAG('g'))", lambda: M.MQSTAR(M.MTAG('g')), '(?:(?P=g))*')
+    add("MQPLUS.NG(MTAG('g'))", lambda: M.MQPLUS.NG(M.MTAG('g')), '(?:(?P=g))+?')
+    add("MTAG('w')", lambda: M.MTAG('w'), '(?P=w)')
+    add("MTAG('v')", lambda: M.MTAG('v'), '(?P=v)')
     return A
+
+
+CORE4 = ("'a'", '...', "MQSTAR('a')", 'MQSTAR(...)', 'MQPLUS(...)', 'MQSTAR.NG(...)', "MQOPT('b')", 'M(g=...)', "MTAG('g')",
+         "MQSTAR(MTAG('g'))")  # sequences of four: back-references behind two or more quantifiers
 
 
 def _el(s):
@@ -120,8 +132,9 @@ def covered(m, tag):
     return out
 
 
-def run_quant(fst, M, cont, seqlen, maxstr, first, res, pure_ast=False):
+def run_quant(fst, M, cont, seqlen, maxstr, first, res, pure_ast=False, core=False):
     A = alphabet(M)
+    pool = [i for i, a in enumerate(A) if a[0] in CORE4] if core else list(range(len(A)))
     mk_src, pcls, mode = CONTAINERS[cont]
     targets = []
     for s in strings(maxstr):
@@ -131,7 +144,7 @@ def run_quant(fst, M, cont, seqlen, maxstr, first, res, pure_ast=False):
         else:
             f = fst.FST(src, mode)
         targets.append((s, f, ast.parse(src).body[0].value if mode == 'expr' else ast.parse(src)))
-    rest = list(itertools.product(range(len(A)), repeat=seqlen - 1)) if seqlen > 1 else [()]
+    rest = list(itertools.product(pool, repeat=seqlen - 1)) if seqlen > 1 else [()]
     for tail in rest:
         idxs = (first,) + tail
         if cont == 'body' and any('MTYPES' in A[i][0] or 'MName' in A[i][0] for i in idxs):
@@ -139,7 +152,11 @@ def run_quant(fst, M, cont, seqlen, maxstr, first, res, pure_ast=False):
         if len({A[i][3] for i in idxs if A[i][3]}) != len([1 for i in idxs if A[i][3]]):
             continue  # the same tag twice: merged-tag semantics, not a regex group
         names = [A[i][0] for i in idxs]
-        rx = re.compile(''.join(A[i][2] for i in idxs))
+        try:
+            rx = re.compile(''.join(A[i][2] for i in idxs))
+        except re.error:
+            res.outcomes['not-a-regex:reference-before-group'] += 1
+            continue
         tags = [A[i][3] for i in idxs if isinstance(A[i][3], str)]
         xtags = [A[i][3] for i in idxs if isinstance(A[i][3], tuple)]
         try:
@@ -411,6 +428,9 @@ def shards(tier):
         out += [{'kind': 'q', 'cont': cont, 'seqlen': L, 'first': i, 'maxstr': 4 if tier == 'quick' else 5}
                 for L in ((1, 2) if tier == 'quick' else (1, 2, 3)) for i in range(n)]
     out += [{'kind': 'q', 'cont': 'List.elts', 'seqlen': 2, 'first': i, 'maxstr': 4, 'pure_ast': True} for i in range(n)]
+    A = alphabet(M)
+    out += [{'kind': 'q', 'cont': 'List.elts', 'seqlen': 4, 'first': i, 'maxstr': 4 if tier == 'quick' else 6, 'core': True}
+            for i in range(n) if A[i][0] in CORE4]
     out += [{'kind': 's', 'prog': i} for i in range(len(PROGRAMS))]
     return out
 
@@ -419,7 +439,7 @@ def run_shard(desc, tier, res):
     import fst
     import fst.match as M
     if desc['kind'] == 'q':
-        run_quant(fst, M, desc['cont'], desc['seqlen'], desc['maxstr'], desc['first'], res, desc.get('pure_ast', False))
+        run_quant(fst, M, desc['cont'], desc['seqlen'], desc['maxstr'], desc['first'], res, desc.get('pure_ast', False), desc.get('core', False))
     else:
         run_struct(fst, M, desc['prog'], res)
 
